@@ -360,13 +360,25 @@ class Consumer(object):
             if failure.check(OperationInProgress):
                 # Once the commit in progress completes -- even if it fails --
                 # commit (again) and stop.
-                failure.value.deferred.addBoth(_commit_and_stop)
+                failure.value.deferred.addBoth(_in_progress_commit_done)
                 return
 
             self._shutdown_d, d = None, self._shutdown_d
             self.stop()
             self._shuttingdown = False  # Shutdown complete
             d.errback(failure)
+
+        def _in_progress_commit_done(result):
+            """The commit we were waiting for completed, or stop() cancelled the wait"""
+            if self._stopping or self._start_d is None:
+                # stop() was called in the meantime: don't start another commit
+                # (stop() is busy cancelling them), just report the shutdown.
+                self._shutdown_d, d = None, self._shutdown_d
+                self._shuttingdown = False
+                if d is not None:
+                    d.errback(result if isinstance(result, Failure) else Failure(CancelledError()))
+                return
+            return _commit_and_stop(result)
 
         def _commit_and_stop(result):
             """Commit the current offsets (if needed) and stop the consumer"""
